@@ -1159,10 +1159,36 @@ impl<'a> Interp<'a> {
     /// the concrete top-level messages (resolved against the pre-state, like the harness must do
     /// before calling App::execute_multi)
     pub fn resolve_top(&self, sender: &str, msgs: &[Msg]) -> Vec<CosmosMsg<XMsg>> {
+        // CRef(252) names the contract that the latest instantiation earlier in the same batch is going
+        // to create (its address is predictable); everywhere else it is an ordinary reference
+        let mut created = 0u64;
+        let mut newest: Option<String> = None;
         msgs.iter()
             .enumerate()
             .map(|(i, m)| {
-                let c = self.resolve(sender, m);
+                let mut c = self.resolve(sender, m);
+                if let (Some(addr), CosmosMsg::Wasm(w)) = (&newest, &mut c) {
+                    let named = matches!(m, Msg::Exec { c: CRef(252), .. } | Msg::Migrate { c: CRef(252), .. } | Msg::UpdateAdmin { c: CRef(252), .. } | Msg::ClearAdmin { c: CRef(252) });
+                    if named {
+                        match w {
+                            WasmMsg::Execute { contract_addr, .. } | WasmMsg::Migrate { contract_addr, .. } | WasmMsg::UpdateAdmin { contract_addr, .. } | WasmMsg::ClearAdmin { contract_addr } => *contract_addr = addr.clone(),
+                            _ => {}
+                        }
+                    }
+                }
+                if let Msg::Inst { code, salt, .. } = m {
+                    let code_id = self.kref(*code);
+                    let instance_id = self.st.contracts.len() as u64 + created;
+                    let predicted = match salt {
+                        None if self.fx.addr_pool > 0 => Some(pool_address(&api(), self.fx.addr_pool, instance_id)),
+                        None => Some(classic_address(code_id, instance_id)),
+                        Some(s) => self.fx.codes.get(&code_id).and_then(|code| salted_address(&code.checksum, sender, &s.0)),
+                    };
+                    if predicted.is_some() {
+                        newest = predicted;
+                        created += 1;
+                    }
+                }
                 if self.faults.contains(&Site::Root(i)) {
                     Self::force_fail(c)
                 } else {
